@@ -549,6 +549,12 @@ func (m *Message) RemoveSignal(signalEntityID EntityID) error {
 		})
 	}
 
+	// a multiplexed signal lives in the groups of its multiplexer
+	// and not in the layout of the message
+	if muxSig := sig.ParentMultiplexerSignal(); muxSig != nil {
+		return muxSig.RemoveSignal(signalEntityID)
+	}
+
 	m.removeSignal(sig)
 
 	m.signalLayout.remove(signalEntityID)
